@@ -1,5 +1,5 @@
 // C43 — (appended to varpulis-lsp/src/completion.rs)
-// Native enumeration cells (bounded stand-ins, DESIGN §2.3): every document of <= 4 characters over ALPHA (7381 documents; 1-, 2- and
+// Native enumeration cells (bounded stand-ins, DESIGN §2.3): every document of <= 4 characters (<= 5 at the thorough tier: 66 430 documents) over ALPHA (7381 documents; 1-, 2- and
 // 3-byte characters, newline, CR) x lines 0..=5 x character columns 0..=6, run natively against the real function.
 #[cfg(vpv_replay)]
 pub const ALPHA: [char; 9] = ['a', '_', ' ', '\n', '\u{e9}', '1', '.', '(', '\u{4e16}'];
@@ -7,7 +7,7 @@ pub const ALPHA: [char; 9] = ['a', '_', ' ', '\n', '\u{e9}', '1', '.', '(', '\u{
 pub fn docs() -> Vec<String> {
     let mut out = vec![String::new()];
     let mut layer = vec![String::new()];
-    for _ in 0..4 {
+    for _ in 0..(if vpv_thorough() { 5 } else { 4 }) {
         let mut next = Vec::new();
         for d in &layer { for c in ALPHA { let mut e = d.clone(); e.push(c); next.push(e); } }
         out.extend(next.iter().cloned());
